@@ -18,7 +18,7 @@ META = dict(
     "(plaintext equal, frames <= 1024, counters consecutive, one writelines call); inbound: complete segmentation graph of "
     "data_received for reference-framed response/event streams with chosen frame sizes, all single/double cuts around 1023/1024/1025-byte "
     "frames; corruption: every single-bit flip of every byte, whole and at every cut, must deliver nothing from the hit frame on, "
-    "tear the transport down through the loop's fatal-error path and fail the pending request with AccessoryDisconnectedError Frame-boundary sweep: every two-block split point and every uniform block size of small response/event/chunked sequences, delivered as one read and block by block; the authentic blocks in front of a corrupted one must still be delivered whatever the read boundaries. Also: the same sweeps through other legal spellings of the messages inside the session (field-name case, separators, hex case). Also streams of 350 KB and 600 KB in reads that never end on a block boundary. Outbound: a request of 1 B .. 200 KB (thorough: 600 KB) abandoned by its caller after k loop iterations, then further requests: everything that reached the open transport authenticates in order and is made of whole requests.",
+    "tear the transport down through the loop's fatal-error path and fail the pending request with AccessoryDisconnectedError Frame-boundary sweep: every two-block split point and every uniform block size of small response/event/chunked sequences, delivered as one read and block by block; the authentic blocks in front of a corrupted one must still be delivered whatever the read boundaries. Also: the same sweeps through other legal spellings of the messages inside the session (field-name case, separators, hex case). Also streams of 350 KB and 600 KB in reads that never end on a block boundary. Outbound: a request of 1 B .. 200 KB (thorough: 600 KB) abandoned by its caller after k loop iterations, then further requests: everything that reached the open transport authenticates in order and is made of whole requests. Also: a request issued straight on the connection object k = 0..39 loop iterations into the connection set-up (nothing undecodable reaches an established session); whole intact frames removed / swapped / early / doubled at every position.",
     note="AEAD strength is assumed; frame-size choices and streams are a finite set; the graph per stream is complete",
     design_ref="DESIGN.md §4 C05",
     rule="state = (offset, canonical protocol state incl. ciphertext buffer, counters, parser, delivered messages); transition = one data_received call; "
